@@ -169,7 +169,8 @@ def gen_instance(rnd, family):
                               for j in range(nj)]
         st = []
         for i in range(nm):
-            M = [[0 if a == b else rnd.randint(0, 5) for b in range(ntools)] for a in range(ntools)]
+            diag = rnd.random() < 0.4
+            M = [[(rnd.randint(0, 4) if diag else 0) if a == b else rnd.randint(0, 5) for b in range(ntools)] for a in range(ntools)]
             e = {"machine": f"m-{i}", "specification": matrix_text(tools, M)}
             if want("stoch", 0.6, 0.1):
                 e["time_behavior"] = time_behavior(rnd, kinds=("uni", "gaussian", "poisson"))
